@@ -10,7 +10,7 @@
        (abort if it is $end),
    so that mid-rule actions that already ran stay run and actions of abandoned rules never run - the mechanism behind
    C16 / C01. The emitted callback sequence `out` is what the ParserBuilder receives.                              *)
-EXTENDS Integers, Sequences, FiniteSets, TLC, Json, IOUtils
+EXTENDS Integers, Sequences, FiniteSets, TLC, Json, IOUtils, LRBase
 
 Tables == JsonDeserialize(IOEnv.LR_TABLES)
 StateTab == Tables.states        \* JSON arrays are 1-based sequences: state s is StateTab[s + 1]
@@ -18,11 +18,6 @@ RuleTab == Tables.rules          \* rule r is RuleTab[r + 1]
 St(s) == StateTab[s + 1]
 Ru(r) == RuleTab[r + 1]
 
-V(n, s) == [n |-> n, s |-> s]                \* a semantic value: number part, text part
-NoVal == V(0, "")
-Tok(t, n, s) == [t |-> t, n |-> n, s |-> s]
-NoTok == Tok("", 0, "")
-EndTok == Tok("$end", 0, "")
 
 Has(rec, f) == f \in DOMAIN rec
 
